@@ -505,8 +505,13 @@ def run(ctx):
                        "made, broken?, key identity and a depth-6 fingerprint of the value, and the number of open descriptors; a "
                        "history is non-trivial when it makes an ephemeron or opens a descriptor, distinct by (variant, text, gc schedule). "
                        "inner: whole-heap dumps before/after the phases of real collections replayed through the extracted gc model.")
-    ctx.coq_obligations("Properties_C16")
     d = ctx.build("default")
+    from gen import c16_layout
+    try:
+        c16_layout.regen(ctx, d)        # (G) type table + phase order -> coq/Gen/C16_Layout.v
+    except Exception as e:
+        ctx.broken("regen:C16_Layout", str(e)[-600:])
+    ctx.coq_obligations("Properties_C16")
     exe = ctx.extract("C16")
     if exe is None:
         return
@@ -551,3 +556,30 @@ def run(ctx):
                "collects from a call that holds no references and collects twice")
     ctx.assume("descriptors are named by instance in the model; the implementation is compared on the number of open descriptors in /proc/self/fd")
     ctx.trust("harness/c16_hist.scm (history interpreter on the real binary) and the dump parser in props/C16.py")
+
+
+def replay(ctx, data):
+    """./check C16 --replay evidence/replay/C16-n.json : re-run the recorded histories on the current tree and the model"""
+    d = ctx.build("default")
+    exe = ctx.extract("C16")
+    rc = 0
+    for case in data.get("failing_cases", []):
+        inp = case.get("input", "")
+        m = re.match(r"^(\d+) ([A-Z0-9,;]+)$", inp)
+        if not m or exe is None:
+            print("not a history (see its 'replay' field):", inp[:200])
+            continue
+        h = (int(m.group(1)), m.group(2).split(";"), "replay")
+        dd = d
+        if case.get("variant") == "asan":
+            dd = ctx.build("asan")
+        mo = model_hist(ctx, exe, [h])[0]
+        io = run_impl(dd, [h], timeout=300)[0]
+        mm = first_mismatch(mo, io)
+        print("history:", inp)
+        print("  model:", mo)
+        print("  impl :", io)
+        print("  =>", mm if mm else "agree")
+        if mm:
+            rc = 1
+    return rc
